@@ -30,6 +30,7 @@ theorem wf_of_good {c : ConfR} (h : GoodConf c) : wfDirs (render c) (matchKeysOf
   unfold wfDirs
   simp only [servers_of_render, splits_of_render]
   rw [dupIssue_eq_nil _ _ (pairs_nodup h), dupIssue_eq_nil _ _ (defaults_nodup h), dupIssue_eq_nil _ _ (splitVars_nodup h)]
+  rw [listenIssues_servers h]
   simp only [List.nil_append, List.append_nil, List.append_eq_nil_iff, List.flatMap_eq_nil_iff]
   refine ⟨⟨?_, ?_⟩, ?_⟩
   · intro sc hsc
